@@ -1,0 +1,48 @@
+//go:build verif
+
+// Contracts for the contract-based verification in /verif (comment-only file).
+
+package addr
+
+//@ # ---- C46 (numeric core and documented option semantics; text formatting/parsing itself is not covered)
+//@ func WithSeparator$1
+//@   props C46
+//@   requires o != nil
+//@   modifies o.separator
+//@   # "In case of the empty string, the ':' is used."
+//@   ensures o.separator == ite(separator == "", ":", separator)
+
+//@ func IAFrom
+//@   props C46
+//@   modifies nothing
+//@   ensures (result1 == nil) == (as <= MaxAS)
+//@   ensures result1 == nil ==> ISD(result0>>48) == isd && AS(result0)&MaxAS == as
+
+//@ func (IA).ISD
+//@   props C46
+//@   modifies nothing
+//@   ensures result == ISD(ia>>48)
+//@ func (IA).AS
+//@   props C46
+//@   modifies nothing
+//@   ensures result == AS(ia)&0xffffffffffff
+
+//@ # the three 16-bit groups printed by fmtAS recompose to the AS number (for every legal AS)
+//@ lemma asGroupsRecompose C46: forall as uint64 :: as <= 0xffffffffffff ==> ((as>>32)&0xffff)<<32|((as>>16)&0xffff)<<16|(as&0xffff) == as
+//@ # pack/unpack of ISD-AS
+//@ lemma iaPackUnpack C46: forall isd uint16, as uint64 :: as <= 0xffffffffffff ==> (uint64(isd)<<48|as)>>48 == uint64(isd) && (uint64(isd)<<48|as)&0xffffffffffff == as
+
+//@ func parseAS
+//@   props C46
+//@   modifies nothing
+//@   # parsing never returns an out-of-range number
+//@   ensures result1 == nil ==> result0 <= MaxAS
+
+//@ func asParseBGP
+//@   props C46
+//@   modifies nothing
+//@   ensures result1 == nil ==> result0 <= MaxBGPAS
+
+//@ func ParseISD
+//@   props C46
+//@   modifies nothing
